@@ -291,6 +291,14 @@ func reportViolationsK(p string, seed int64, stats *Stats, kf KnownFile, outDir 
 		nViol++
 		path := filepath.Join(outDir, "replays", fmt.Sprintf("%s-%d-%s.json", p, seed, sanitize(s)))
 		if h := stats.VioHist[s]; h != nil {
+			if len(h.Steps) > 10 && nViol <= 6 {
+				before := len(h.Steps)
+				h = shrinkHistory(h, s, 15*time.Second)
+				if len(h.Steps) < before {
+					v.StepIdx = -2 // step numbers refer to the original history; the replay prints the new one
+					v.Msg += fmt.Sprintf(" [witness shrunk from %d to %d steps]", before, len(h.Steps))
+				}
+			}
 			doc := map[string]interface{}{"violation": v, "history": h}
 			ioutil.WriteFile(path, mustJSON(doc), 0o644)
 		}
